@@ -209,7 +209,7 @@ NOT_YET = {}
 # Source ties (third session): kernels translated from the Python AST on every run (harness/gen_source.py ->
 # lean/EpsieModel/Generated/Source.lean) and proved equal to the hand-written model for all arguments.
 SOURCE_TIES = {
- 'C01': 'EpsieProps/C01Source.lean: Chain._acceptance_ratio as translated = Chain.logAR/decision/accepted/ar, a uniform is consumed iff the decision is a draw.',
+ 'C01': 'EpsieProps/C01Source.lean: Chain._acceptance_ratio as translated = Chain.logAR/decision/accepted/ar, a uniform is consumed iff the decision is a draw; EpsieProps/C01SourceExt.lean: the same method translated over IEEE-extended values (EpsieModel/ExtLog.lean: -inf, +inf, nan) agrees with the rational kernel on finite inputs, never raises at beta = 0 whatever the likelihoods (vanishing likelihood accepted with the prior ratio), gives acceptance probability exactly 0 into a region of vanishing likelihood at beta > 0, and the pre-repair formula is nan there (pinned counterexample of repo fix 9ab5e82).',
  'C03': 'EpsieProps/C03Source.lean: the hot-to-cold loop of swap_temperatures as translated = Swap.loop/Swap.sweep for every ladder length and uniform stream (loop invariant).',
  'C06': 'EpsieProps/C06Source.lean: Chain.clear and the scratch growth of BaseSampler.run as translated = Chain.clear / Chain.extendFor.',
  'C08': 'EpsieProps/C08Source.lean: BaseChain.__len__ and the index arithmetic / read set of Chain.__getitem__ as translated = Chain.len / Chain.getitem for every Python integer index.',
